@@ -236,36 +236,59 @@ def run(ctx):
     if len(hw) != len(res):
         raise vlib.Broken("%d recorded schedules for %d results" % (len(hw), len(res)))
     rejected = [k for k, (a, b) in enumerate(hw) if a != b]
+    _selftest(ctx, [r for k, r in enumerate(recs) if hw[k][0] == hw[k][1] and res[k]["ok"]])
+
+    # ---- failures: seen by the replayer itself, by the specification, or both
     tlc_only = 0
+    failing = {}
+    for k, r in enumerate(res):
+        if not r["ok"]:
+            failing[k] = r.get("what") or ""
     for k in rejected:
-        ev = recs[k]["ev"][hw[k][0]]
         why = ("Trace_WsConc rejects the recorded execution at event %d of %d: %s (no behaviour of the specification that satisfies "
-               "WholeFrames/AfterClose/InOrder produces it)" % (hw[k][0] + 1, hw[k][1], json.dumps(ev)))
-        if not res[k]["ok"]:
-            res[k]["what"] = (res[k].get("what") or "") + " | " + why     # the replayer saw it too; judge reproduces it
-            continue
-        # only the specification sees it: the schedule is forced again and must be rejected again
-        case = json.loads(case_lines[k])
-        again = None
-        for attempt in range(3):
-            single = os.path.join(ctx.out, "single_trace.ndjson")
-            with open(single, "w") as f:
-                f.write(json.dumps(case) + "\n")
-            d = os.path.join(ctx.out, "traces_single")
-            r1 = ctx.replay("wsconc", single, race=True, dir=d)
-            h1, rec1 = _validate(ctx, os.path.join(d, "trace.ndjson"), "trace_single")
-            if not r1[0]["ok"] or h1[0][0] != h1[0][1]:
-                again = (h1[0], rec1[0])
+               "WholeFrames/AfterClose/InOrder produces it)" % (hw[k][0] + 1, hw[k][1], json.dumps(recs[k]["ev"][hw[k][0]])))
+        if k in failing:
+            failing[k] += " | " + why
+        else:
+            failing[k] = why
+            tlc_only += 1
+            res[k]["deviation"] = "C15/trace-rejected"
+            res[k]["observed"] = recs[k]["ev"]
+    unreproduced = 0
+    if failing:
+        # every failing schedule is forced once more (twice if need be) and has to fail again:
+        # a schedule is a real-time affair, a verdict needs the failure twice
+        idx = sorted(failing)[:400]
+        again = set()
+        for attempt in range(2):
+            todo = [k for k in idx if k not in again]
+            if not todo:
                 break
-        if again is None:
-            raise vlib.Broken("recorded execution of schedule %d was rejected by Trace_WsConc but three re-runs were accepted: %s" % (k, why))
-        tlc_only += 1
-        ctx.fail_results.append(("wsconc", case, {"i": k, "ok": False, "deviation": "C15/trace-rejected", "what": why,
-                                                  "observed": recs[k]["ev"]}))
-
-    _selftest(ctx, [r for k, r in enumerate(recs) if hw[k][0] == hw[k][1]])
-
-    ctx.judge("wsconc", cases, res, race=True)
+            # second round: a failure that needs the runtime's cooperation gets 15 chances per schedule
+            todo = [k for k in todo for _ in range(1 if attempt == 0 else 15)][:900]
+            batch = os.path.join(ctx.out, "repro_%d.ndjson" % attempt)
+            with open(batch, "w") as f:
+                for k in todo:
+                    f.write(case_lines[k] + "\n")
+            d = os.path.join(ctx.out, "traces_repro_%d" % attempt)
+            r2 = ctx.replay("wsconc", batch, race=True, dir=d, timeout=3000)
+            h2, _ = _validate(ctx, os.path.join(d, "trace.ndjson"), "trace_repro_%d" % attempt)
+            for j, k in enumerate(todo):
+                if not r2[j]["ok"] or h2[j][0] != h2[j][1]:
+                    again.add(k)
+        if not again:
+            k = idx[0]
+            raise vlib.Broken("%d schedule(s) failed but none failed again when forced 16 more times; first: schedule %d %s: %s"
+                              % (len(failing), k, case_lines[k][:300], failing[k][:600]))
+        for k in failing:
+            if k in again or k not in idx:
+                res[k]["ok"] = False
+                res[k]["what"] = failing[k]
+            else:
+                unreproduced += 1
+                res[k]["ok"] = True
+                res[k].setdefault("info", {})["failed_once_not_again"] = failing[k][:400]
+    ctx.judge("wsconc", cases, res, race=True, reproduce=False)
 
     infos = [r.get("info") or {} for r in res]
     ctx.notes["schedules"] = per_family
@@ -282,6 +305,7 @@ def run(ctx):
         "race_reports": sum(i.get("race_reports", 0) for i in infos),
     }
     ctx.notes["trace_validation"] = {"schedules_accepted": len(hw) - len(rejected), "schedules_rejected": len(rejected),
-                                     "rejected_only_by_the_specification": tlc_only}
+                                     "rejected_only_by_the_specification": tlc_only,
+                                     "failed_once_but_not_when_forced_again": unreproduced}
     if ctx.notes["replay"]["with_header_and_extra_on_the_wire"] == 0:
         raise vlib.Broken("no recorded execution wrote a frame in two transport writes: the replay did not exercise the property")
